@@ -16,7 +16,7 @@ func init() {
 		"(R04b) receive buffers (UDP batch buffers, gnet Next() views, HTTP body buffers, base64 scratch) do not escape the handler turn; "+
 		"(R04c = R07d) the memory cache stores and returns private copies under the entry lock with a key re-check; "+
 		"(R04d = R20a/R20b/R20g) request messages, contexts and buffers are released only after their last use, are not released under a goroutine that still holds them, and are reset before reuse; "+
-		"plus the demultiplexing preconditions shared with C05/C06 (R05c delivery by the reply's own ID, R06a/R06b only a cleanly finished connection is offered for reuse). "+
+		"plus the demultiplexing preconditions shared with C05/C06 (R05a/R01f ids are unique per connection and never wrap, R05c delivery by the reply's own ID, R06a/R06b only a cleanly finished connection is offered for reuse). "+
 		"Not decided: schedule-dependent value flow beyond these ownership/aliasing facts; cache keying is C07's subject.",
 		Rule{ID: "R04a", Doc: "decoders copy out of the wire buffer", Floor: 14, AllVariants: true, Run: r04a},
 		Rule{ID: "R04b", Doc: "receive buffers do not escape the handler turn", Floor: 5, Run: r04b},
@@ -25,6 +25,8 @@ func init() {
 		Rule{ID: "R20b", Doc: "nothing released under a goroutine that holds it", Floor: 20, Run: r20b},
 		Rule{ID: "R20g", Doc: "pool-put hygiene", Floor: 12, Run: r20g},
 		Rule{ID: "R05c", Doc: "delivery by the reply's own ID", Floor: 5, Run: r05c},
+		Rule{ID: "R05a", Doc: "a pipelined connection never assigns an id that is still registered (shared with C05)", Floor: 5, Run: r05a},
+		Rule{ID: "R01f", Doc: "the id conversion cannot wrap to a live id (shared with C05)", Floor: 2, Run: r01fTransport},
 		Rule{ID: "R06a", Doc: "idle-set insert discipline", Floor: 4, Run: r06a},
 		Rule{ID: "R06b", Doc: "who may release a connection", Floor: 2, Run: r06b},
 	)
